@@ -83,7 +83,7 @@ sys.exit(0 if bool(got) == exp else 1)
 '''
 
 
-def task_sane(systems):
+def task_sane(systems, deadline=300):
     from chempy.equilibria import EqSystem
 
     res = dict(engine="Z", functions=[env.describe(EqSystem._result_is_sane)], obligations=0, discharged=0, violations=[], inconclusive=[],
@@ -117,7 +117,7 @@ def task_sane(systems):
             spec = z3.And(*conds)
             return spec if bool(p.value) else z3.Not(spec)
 
-        o = explore_and_prove(fn, assum, goal, max_paths=60000, deadline_s=300)
+        o = explore_and_prove(fn, assum, goal, max_paths=400000, deadline_s=deadline)
         res["obligations"] += o.obligations
         res["discharged"] += o.discharged
         res["queries"] += o.queries
@@ -403,7 +403,8 @@ def tasks(tier, seed):
     for i in range(n):
         ch = allsys[i::n]
         if ch:
-            ts.append(dict(id="C08.sane.%02d" % i, fn="task_sane", kwargs=dict(systems=ch), timeout=2400))
+            ts.append(dict(id="C08.sane.%02d" % i, fn="task_sane", kwargs=dict(systems=ch, deadline=300 if tier == "quick" else 2400),
+                           timeout=2400 if tier == "quick" else 20000))
     for i in range(4):
         ch = pre[i::4]
         if ch:
